@@ -477,8 +477,50 @@ def _prev_is_comment(text, k):
     return "//" in text[ls:k + 1]
 
 
-def expand_splices(body):
+HOIST = []
+
+
+def auto_consts(rel, code, jobtext, d):
+    """autoconst=1: every SCREAMING_CASE identifier of the extracted text that is a file-level `const` of the SAME source
+    file and is not defined by the job itself is spliced verbatim in front of the job (so that a change which
+    introduces or alters such a constant is judged, not lost)."""
+    text = open(os.path.join(REPO, rel)).read()
+    for name in sorted(set(re.findall(r"\b[A-Z][A-Z0-9_]{2,}\b", code))):
+        if re.search(r"\b(const|static)\s+%s\b" % name, jobtext) or any(("const %s:" % name) in h for h in HOIST):
+            continue
+        m = find_code(text, r"(?:pub(?:\([a-z:]+\))?\s+)?const\s+%s\s*:" % name)
+        if not m:
+            continue
+        # file level only: brace depth 0 at the match
+        depth = 0
+        i = 0
+        while i < m.start():
+            kind, j = _scan(text, i)
+            if kind == "code":
+                depth += text[i] == "{"
+                depth -= text[i] == "}"
+            i = j
+        if depth != 0:
+            continue
+        semi = find_code(text, r";", m.start())
+        item = strip_comments_and_attrs(text[m.start():semi.end()])
+        item = re.sub(r"^pub(\([a-z:]+\))?\s+", "", item)
+        HOIST.append("// extracted verbatim from %s (constant referenced by an extracted statement)\npub %s" % (rel, item))
+        d.append("constant `%s` of %s spliced because the extracted text references it" % (name, rel))
+
+
+def expand_splices(body, top=True):
+    if top:
+        del HOIST[:]
+    out_text, dropped = _expand_splices(body)
+    if top and HOIST:
+        out_text = "\n".join(HOIST) + "\n" + out_text
+    return out_text, dropped
+
+
+def _expand_splices(body):
     lines = body.split("\n")
+    JOBTEXT[0] = body if not JOBTEXT[0] else JOBTEXT[0]
     out, dropped = [], []
     i = 0
     while i < len(lines):
@@ -502,7 +544,10 @@ def expand_splices(body):
             continue
         if s.startswith("//@ splice-item"):
             toks = shlex.split(s[len("//@ splice-item"):])
-            code, d = splice_item(toks[0], toks[1], dict(t.split("=", 1) for t in toks[2:] if "=" in t))
+            o_ = dict(t.split("=", 1) for t in toks[2:] if "=" in t)
+            code, d = splice_item(toks[0], toks[1], o_)
+            if o_.get("autoconst"):
+                auto_consts(toks[0], code, JOBTEXT[0], d)
             out.append(code)
             dropped += d
             i += 1
@@ -514,7 +559,10 @@ def expand_splices(body):
             while i < len(lines) and lines[i].strip().startswith("//@^"):
                 ghost.append(lines[i].strip()[4:].strip())
                 i += 1
-            code, d = splice_stmts(toks[0], toks[1], toks[2], dict(t.split("=", 1) for t in toks[3:] if "=" in t), ghost)
+            o_ = dict(t.split("=", 1) for t in toks[3:] if "=" in t)
+            code, d = splice_stmts(toks[0], toks[1], toks[2], o_, ghost)
+            if o_.get("autoconst"):
+                auto_consts(toks[0], code, JOBTEXT[0], d)
             out.append(code)
             dropped += d
             continue
@@ -525,7 +573,7 @@ def expand_splices(body):
                 continue
             INCLUDED.add(s.split()[2])
             inc = os.path.join(os.path.dirname(JOBDIR[0]), s.split()[2])
-            sub, d = expand_splices("\n".join(l for l in open(inc).read().split("\n") if not l.startswith("//@ verus")))
+            sub, d = _expand_splices("\n".join(l for l in open(inc).read().split("\n") if not l.startswith("//@ verus")))
             out.append("// ---- included job %s ----" % s.split()[2])
             out.append(sub)
             out.append("// ---- end included job %s ----" % s.split()[2])
@@ -538,6 +586,7 @@ def expand_splices(body):
 
 
 INCLUDED = set()
+JOBTEXT = [""]
 JOBDIR = [os.path.join(os.path.dirname(os.path.dirname(os.path.abspath(__file__))), "verus", "extract", "x")]
 
 
